@@ -47,7 +47,17 @@ def random_droplet(rng: random.Random, lay: dict, radius0: bool = True) -> dict:
 
 def random_time_list(rng: random.Random, n: int) -> list:
     style = rng.choice(["range", "int", "float", "neg", "irregular", "np", "decimal", "bigint",
-                        "cross_zero", "cross_zero", "offset", "tiny"])
+                        "cross_zero", "cross_zero", "offset", "tiny", "dup", "unsorted", "equal"])
+    if style in ("dup", "unsorted", "equal"):
+        # legal time lists of stored collections that are not strictly increasing: repeated
+        # stamps (continued runs), restarts / arbitrary order, all frames at one time
+        base = [q(rng.uniform(-5, 20)) for _ in range(n)]
+        if style == "equal":
+            return [base[0]] * n if n else []
+        if style == "dup":
+            base.sort()
+            return [base[max(0, i - rng.choice([0, 0, 1]))] for i in range(n)]
+        return base
     if style == "cross_zero":  # an exact zero that is not the first time
         k = rng.randrange(n) if n else 0
         step = rng.choice([0.5, 0.75, 1, 2, 2.5])
